@@ -47,21 +47,34 @@ def main():
     ap.add_argument('--props', required=True)
     ap.add_argument('--tier', default='quick')
     ap.add_argument('--seed', default='1')
+    ap.add_argument('--worktree')
     a = ap.parse_args()
     sd = os.path.abspath(a.dir)
     patch, demo = os.path.join(sd, 'patch.diff'), os.path.join(sd, 'demo.py')
     out = {'dir': a.dir, 'props': a.props.split(','), 'tier': a.tier}
+    # 1-3: confirm the author's claims in the scratch worktree the change was written in (its own checkout of
+    # the repository; demos may assert that location)
+    wt = a.worktree or os.path.dirname(sd)
+    subprocess.run(['git', '-C', wt, 'checkout', '--', 'pyplate'], capture_output=True)
+    rc, tail = run_demo(wt, demo)
+    out['demo_clean_rc'] = rc
+    if rc != 0:
+        out['demo_clean_tail'] = tail
+    r = subprocess.run(['git', '-C', wt, 'apply', patch], capture_output=True, text=True)
+    out['patch_applies_in_worktree'] = r.returncode == 0
+    if r.returncode == 0:
+        t = subprocess.run(['/venv/bin/python', '-m', 'pytest', '-q', '-p', 'no:cacheprovider', '--timeout=900', 'tests'],
+                           cwd=wt, env=env_for(wt), capture_output=True, text=True)
+        out['suite'] = t.stdout.strip().splitlines()[-1] if t.stdout.strip() else t.stderr[-200:]
+        out['suite_passes'] = t.returncode == 0
+        rc, tail = run_demo(wt, demo)
+        out['demo_patched_rc'] = rc
+        out['demo_patched_tail'] = tail[-300:]
+        subprocess.run(['git', '-C', wt, 'checkout', '--', 'pyplate'], capture_output=True)
+    # 4: the checks run against a scratch copy of /repo's current tree with the patch applied
     d = copy_repo()
     try:
-        # the demos written against /tmp/seed/... assert their own location sometimes: run a copy with that relaxed
-        demo_local = os.path.join(d, '_demo.py')
-        src = open(demo).read()
-        open(demo_local, 'w').write(src)
-        rc, tail = run_demo(d, demo_local)
-        out['demo_clean_rc'] = rc
-        if rc != 0:
-            out['demo_clean_tail'] = tail
-        r = subprocess.run(['patch', '-p1', '-s', '-d', d, '-i', patch], capture_output=True, text=True)
+        r = subprocess.run(['patch', '-p1', '-s', '--no-backup-if-mismatch', '-d', d, '-i', patch], capture_output=True, text=True)
         out['patch_applies'] = r.returncode == 0
         if r.returncode != 0:
             out['patch_err'] = (r.stdout + r.stderr)[-300:]
@@ -69,11 +82,7 @@ def main():
             return 2
         t = subprocess.run(['/venv/bin/python', '-m', 'pytest', '-q', '-p', 'no:cacheprovider', '--timeout=900', 'tests'],
                            cwd=d, env=env_for(d), capture_output=True, text=True)
-        out['suite'] = t.stdout.strip().splitlines()[-1] if t.stdout.strip() else t.stderr[-200:]
-        out['suite_passes'] = t.returncode == 0
-        rc, tail = run_demo(d, demo_local)
-        out['demo_patched_rc'] = rc
-        out['demo_patched_tail'] = tail[-200:]
+        out['suite_on_current_tree'] = t.stdout.strip().splitlines()[-1] if t.stdout.strip() else t.stderr[-200:]
         out['checks'] = {}
         for prop in out['props']:
             e = dict(os.environ, VERIF_REPO=d, VERIF_SEED=a.seed, VERIF_REPLAY_DIR=os.path.join(d, '_replays'),
